@@ -716,6 +716,7 @@ func (lb *LoadBalancer) proxyRequest(backend *Backend, w http.ResponseWriter, r 
 	rw := &responseWriter{
 		ResponseWriter: w,
 		statusCode:     http.StatusOK, // Default status code
+		preset:         w.Header().Clone(),
 	}
 
 	// The reverse proxy aborts the handler with panic(http.ErrAbortHandler) when
@@ -800,10 +801,28 @@ func (lb *LoadBalancer) handlePassiveHealthCheck(backend *Backend, statusCode in
 type responseWriter struct {
 	http.ResponseWriter
 	statusCode int
+	preset     http.Header // response headers set before the request reached the proxy (request / trace IDs, plugin headers)
+	interim    bool        // an informational (1xx) response has been forwarded
 }
 
 // WriteHeader captures the status code
 func (rw *responseWriter) WriteHeader(statusCode int) {
+	if statusCode >= 100 && statusCode < 200 && statusCode != http.StatusSwitchingProtocols {
+		// httputil.ReverseProxy clears the header map after it has forwarded an
+		// interim response, which also drops what the middleware had already set
+		// for the final response; remember to put that back.
+		rw.interim = true
+		rw.ResponseWriter.WriteHeader(statusCode)
+		return
+	}
+	if rw.interim {
+		h := rw.ResponseWriter.Header()
+		for key, values := range rw.preset {
+			if _, present := h[key]; !present {
+				h[key] = append([]string(nil), values...)
+			}
+		}
+	}
 	rw.statusCode = statusCode
 	rw.ResponseWriter.WriteHeader(statusCode)
 }
